@@ -22,7 +22,7 @@ skip = set()
 if "--skip" in sys.argv:
     skip = set(sys.argv[sys.argv.index("--skip") + 1].split(","))
 muts = {}
-for l in open("/tmp/msweep/mutants.jsonl"):
+for l in open(os.environ.get("MSWEEP", "/tmp/msweep") + "/mutants.jsonl"):
     m = json.loads(l)
     muts[str(m["id"])] = m
 
